@@ -335,14 +335,14 @@ func ruleAllocate(c *Ctx, prefix string, ai *allocImpl, want map[string]bool) {
 	}
 	hintUsable := func(st *State) int {
 		// three-valued "the hint names a free block of the pool"
-		if regexp.MustCompile(`Allocator\)\.toIndex`).MatchString(fnCalls(fn)) {
+		if regexp.MustCompile(`Allocator\)\.` + an("toIndex")).MatchString(fnCalls(fn)) {
 			to16, _ := histFact(st, "nil", regexp.MustCompile(`^\(net\.IP\)\.To16\(\$1\.IP\)$`))
 			cont, _ := histFact(st, "bool", regexp.MustCompile(`^\(\*net\.IPNet\)\.Contains\(&\$0\.`+`[A-Za-z_]+`+`,\$1\.IP\)$`))
-			terr, _ := histFact(st, "nil", regexp.MustCompile(`\.toIndex(@(?:[\w$]+·)?t\d+)?\(\$0,\$1\.IP\)#1$`))
-			tst, _ := histFact(st, "bool", regexp.MustCompile(`^\(\*`+reQ(pkgBitset)+`\.BitSet\)\.Test\(\$0\.`+ai.Bitmap+`,conv<uint>\(.*\.toIndex(@(?:[\w$]+·)?t\d+)?\(\$0,\$1\.IP\)#0\)\)$|^\(\*`+reQ(pkgBitset)+`\.BitSet\)\.Test\(\$0\.`+ai.Bitmap+`,.*\.toIndex(@(?:[\w$]+·)?t\d+)?\(\$0,\$1\.IP\)#0\)$`))
+			terr, _ := histFact(st, "nil", regexp.MustCompile(`\.`+an("toIndex")+`(@(?:[\w$]+·)?t\d+)?\(\$0,\$1\.IP\)#1$`))
+			tst, _ := histFact(st, "bool", regexp.MustCompile(`^\(\*`+reQ(pkgBitset)+`\.BitSet\)\.Test\(\$0\.`+ai.Bitmap+`,conv<uint>\(.*\.`+an("toIndex")+`(@(?:[\w$]+·)?t\d+)?\(\$0,\$1\.IP\)#0\)\)$|^\(\*`+reQ(pkgBitset)+`\.BitSet\)\.Test\(\$0\.`+ai.Bitmap+`,.*\.`+an("toIndex")+`(@(?:[\w$]+·)?t\d+)?\(\$0,\$1\.IP\)#0\)$`))
 			return and3(not3(to16), cont, terr, not3(tst))
 		}
-		tst, _ := histFact(st, "bool", regexp.MustCompile(`^\(\*`+reQ(pkgBitset)+`\.BitSet\)\.Test\(\$0\.`+ai.Bitmap+`,.*\.toOffset(@(?:[\w$]+·)?t\d+)?\(\$0,\$1\.IP\)#0\)$`))
+		tst, _ := histFact(st, "bool", regexp.MustCompile(`^\(\*`+reQ(pkgBitset)+`\.BitSet\)\.Test\(\$0\.`+ai.Bitmap+`,.*\.`+an("toOffset")+`(@(?:[\w$]+·)?t\d+)?\(\$0,\$1\.IP\)#0\)$`))
 		return not3(tst)
 	}
 	ex.Hooks.Instr = func(st *State, in ssa.Instruction) {
@@ -455,8 +455,8 @@ func ruleAllocate(c *Ctx, prefix string, ai *allocImpl, want map[string]bool) {
 			return
 		}
 		i := out[0]
-		okIP := ipC == "(*"+ai.T.Obj().Pkg().Path()+"."+ai.T.Obj().Name()+").toIP($0,conv<uint32>("+i+"))" ||
-			regexp.MustCompile(`^\(\*`+reQ(ai.T.Obj().Pkg().Path()+"."+ai.T.Obj().Name())+`\)\.to(Prefix|IP)(@(?:[\w$]+·)?t\d+)?\(\$0,(conv<[a-z0-9]+>\()?`+reQ(i)+`\)?\)(#0)?$`).MatchString(ipC)
+		okIP := ipC == "(*"+ai.T.Obj().Pkg().Path()+"."+ai.T.Obj().Name()+")."+anRaw("toIP")+"($0,conv<uint32>("+i+"))" ||
+			regexp.MustCompile(`^\(\*`+reQ(ai.T.Obj().Pkg().Path()+"."+ai.T.Obj().Name())+`\)\.(`+an("toPrefix")+`|`+an("toIP")+`)(@(?:[\w$]+·)?t\d+)?\(\$0,(conv<[a-z0-9]+>\()?`+reQ(i)+`\)?\)(#0)?$`).MatchString(ipC)
 		if !okIP && len(exitBad) < 4 {
 			exitBad = append(exitBad, fmt.Sprintf("return at %s: the address returned (%s) is not the index→address conversion of the bit that was set (%s)", c.P.InstrPos(in), shortName(stripAt(ipC)), shortName(i)))
 		}
@@ -465,7 +465,7 @@ func ruleAllocate(c *Ctx, prefix string, ai *allocImpl, want map[string]bool) {
 			if st.seen["nextclear"] && len(hintBad) < 3 {
 				hintBad = append(hintBad, "first-free search executed although the hint is usable")
 			}
-			if !regexp.MustCompile(`\.to(Index|Offset)(@(?:[\w$]+·)?t\d+)?\(\$0,\$1\.IP\)#0`).MatchString(i) && len(hintBad) < 3 {
+			if !regexp.MustCompile(`\.(`+an("toIndex")+`|`+an("toOffset")+`)(@(?:[\w$]+·)?t\d+)?\(\$0,\$1\.IP\)#0`).MatchString(i) && len(hintBad) < 3 {
 				hintBad = append(hintBad, fmt.Sprintf("hint usable but the bit set is %s, not the hint's index", shortName(i)))
 			}
 		}
@@ -592,7 +592,7 @@ func ruleFree(c *Ctx, prefix string, ai *allocImpl) {
 				idxSites[in] = r
 			}
 			r.n++
-			if m := regexp.MustCompile(`(\(\*[^()]*\)\.toIndex(@(?:[\w$]+·)?t\d+)?\(\$0,(.*)\))#0`).FindStringSubmatch(ic); m != nil {
+			if m := regexp.MustCompile(`(\(\*[^()]*\)\.` + an("toIndex") + `(@(?:[\w$]+·)?t\d+)?\(\$0,(.*)\))#0`).FindStringSubmatch(ic); m != nil {
 				arg := m[3]
 				errNil, _ := histFact(st, "nil", regexp.MustCompile(`^`+reQ(m[1])+`#1$`))
 				cont, _ := histFact(st, "bool", regexp.MustCompile(`^\(\*net\.IPNet\)\.Contains\(&\$0\.[A-Za-z_]+,`+reQ(arg)+`\)$`))
@@ -614,7 +614,7 @@ func ruleFree(c *Ctx, prefix string, ai *allocImpl) {
 				} else if and3(errNil, cont) != 1 {
 					r.bad = fmt.Sprintf("the bitmap is indexed with toIndex(%s), an absolute distance from the pool base, without establishing that the address lies inside the pool (Contains=%s, conversion-ok=%s): a prefix below the base maps onto another client's block", shortName(arg), tri(cont), tri(errNil))
 				}
-			} else if m := regexp.MustCompile(`(\(\*[^()]*\)\.toOffset(@(?:[\w$]+·)?t\d+)?\(\$0,.*\))#0`).FindStringSubmatch(ic); m != nil {
+			} else if m := regexp.MustCompile(`(\(\*[^()]*\)\.` + an("toOffset") + `(@(?:[\w$]+·)?t\d+)?\(\$0,.*\))#0`).FindStringSubmatch(ic); m != nil {
 				errNil, _ := histFact(st, "nil", regexp.MustCompile(`^`+reQ(m[1])+`#1$`))
 				if errNil != 1 {
 					r.bad = "the bitmap is indexed with toOffset's result although its range test did not succeed (error ignored)"
@@ -739,7 +739,7 @@ func ruleHintCallers(c *Ctx, rule string) {
 // re-allocated with its stored address as hint; an allocation error or a
 // different answer aborts start-up.
 func ruleRangeRestart(c *Ctx, rule string) {
-	fn := c.P.Func("plugins/range", "", "setupRange")
+	fn := c.P.Anchor("setupRange")
 	if fn == nil {
 		c.R.Fatalf("ANCHOR-UNRESOLVED: rangeplugin.setupRange")
 		return
@@ -801,7 +801,7 @@ func ruleRangeRestart(c *Ctx, rule string) {
 		if !regexp.MustCompile(`^next@(?:[\w$]+·)?t\d+#2\.IP$`).MatchString(hint) {
 			addp("the hint is not the stored address of the record being restored: " + shortName(hint))
 		}
-		if v, _ := histFact(st, "nil", regexp.MustCompile(`loadRecords(@(?:[\w$]+·)?t\d+)?\(.*\)#1$`)); v != 1 {
+		if v, _ := histFact(st, "nil", regexp.MustCompile(an("loadRecords")+`(@(?:[\w$]+·)?t\d+)?\(.*\)#1$`)); v != 1 {
 			addp("leases are re-marked without loadRecords having succeeded")
 		}
 	}
@@ -902,9 +902,9 @@ func ruleAllocIndexBounded(c *Ctx, rule string) {
 				ic := ex.Canon(st, call.Call.Args[1]).S
 				switch {
 				case regexp.MustCompile(`^\(\*` + reQ(pkgBitset) + `\.BitSet\)\.NextClear(@(?:[\w$]+·)?t\d+)?\(\$0\.` + ai.Bitmap + `,[^)]*\)#0$`).MatchString(ic):
-				case regexp.MustCompile(`^\(\*[^()]*\)\.toOffset(@(?:[\w$]+·)?t\d+)?\(\$0,.*\)#0$`).MatchString(ic):
+				case regexp.MustCompile(`^\(\*[^()]*\)\.` + an("toOffset") + `(@(?:[\w$]+·)?t\d+)?\(\$0,.*\)#0$`).MatchString(ic):
 				default:
-					m := regexp.MustCompile(`^(\(\*[^()]*\)\.toIndex(@(?:[\w$]+·)?t\d+)?\(\$0,(.*)\))#0$`).FindStringSubmatch(ic)
+					m := regexp.MustCompile(`^(\(\*[^()]*\)\.` + an("toIndex") + `(@(?:[\w$]+·)?t\d+)?\(\$0,(.*)\))#0$`).FindStringSubmatch(ic)
 					if m == nil {
 						r.bad = "Set(" + shortName(ic) + "): the index is neither NextClear's result nor the pool's address→index conversion"
 						return
